@@ -136,8 +136,15 @@ def cse_grammar(rnd, n):
     out = []
     for k in range(n):
         iv = [rnd.choice([1, 2, 3, 5, 10, -3, 2.5]) for _ in range(4)]
-        kind = k % 4
-        if kind == 0:     # an ordinary cell with a range argument, used by an array formula
+        kind = k % 6
+        if kind == 4:     # two un-calculated formula cells chained below an array formula that must be fitted to its range
+            out.append(WB({'A1': iv[0], 'A2': iv[1], 'A3': iv[2]},
+                          {'B1': '=A1*2', 'C1': '=B1+1', 'C2': '=IFERROR(B1/(A2-A2),7)', 'G1': '=SUM(E1:E3)'}, 'cse-deep',
+                          {'E1': ('E1:E3', '=SUM(A1:A3)+C1'), 'F1': ('F1:F3', '=IFERROR(C2/(A1:A3-A1),-1)')}))
+        elif kind == 5:   # an intersection that lands on a single formula cell, read before and after the cell itself
+            out.append(WB({'A1': iv[0], 'A3': iv[2], 'B2': iv[1], 'C9': iv[3]},
+                          {'A2': '=C9+1', 'D1': '=SUM(A1:A3 A2:B2)', 'D2': '=IFERROR(A2,9)', 'D3': '=A2*2'}, 'intersection'))
+        elif kind == 0:     # an ordinary cell with a range argument, used by an array formula
             out.append(WB({'A1': iv[0], 'A2': iv[1], 'A3': iv[2]},
                           {'B1': '=IFERROR(A1:A3,9)', 'D1': '=SUM(C1:C3)'}, 'cse-col',
                           {'C1': ('C1:C3', '=A1:A3+B1')}))
